@@ -39,7 +39,7 @@ def main():
     toks = []
     for t in cmd.split():
         t = t.rstrip(').,;')
-        if (t.startswith(('-D', '-O', '-f', '-W')) and 'sanitize' not in t or t.startswith('-fsanitize')) and re.fullmatch(r'-[A-Za-z][\w=,+-]*', t) and t not in toks:
+        if (t.startswith(('-D', '-O', '-f', '-W', '-g')) and 'sanitize' not in t or t.startswith('-fsanitize')) and re.fullmatch(r'-[A-Za-z][\w=,+-]*', t) and t not in toks:
             toks.append(t)
     # only the first optimisation level counts (later ones come from prose in the agent's description)
     opt = [t for t in toks if re.fullmatch(r'-O\w?', t)]
